@@ -274,8 +274,8 @@ class C07(PropertyCheck):
     trusted_extra = [
         "numpy.linalg.inv (contract C·inv(C) = I; checked per case against an exact rational inverse / residual)",
         "numpy/libm sqrt, exp of the kernel schemes (parameters of the model; driver uses Float.sqrt/exp, 1e-9)",
-        "positive-definiteness of the Gaussian / exponential kernel matrices themselves is NOT proved: tested per "
-        "case by exact rational LDL^T (n <= 14) or float Cholesky",
+        "positive-definiteness of the exponential kernel matrix itself is NOT proved (the Gaussian one is, over the "
+        "reals): tested per case by exact rational LDL^T (n <= 14) or float Cholesky",
         "scipy.linalg.block_diag, numpy.delete (modelled by Spec.blockDiag / Spec.deleteIdx; compared per case)",
         "scipy.spatial.Delaunay.vertex_neighbor_vertices / Mesh2DRectangular.neighbors supply the neighbour tables "
         "(inputs of the model; their symmetry is checked per case by the oracle)",
@@ -1300,7 +1300,7 @@ class C07(PropertyCheck):
             "AdaptiveBrightnessSplit": ["C07.split_scheme_spec", "C07.split_quad", "C07.split_symm", "C07.split_posdef"],
             "reg_split_from": ["C07.reg_split_from_rows", "C07.split_scheme_spec"],
             "pixel_splitted": ["C07.split_quad", "C07.split_posdef"],
-            "GaussianKernel": ["C07.kernel_cov_symm", "C07.kernel_reg_posdef_partial"],
+            "GaussianKernel": ["C07.kernel_cov_entry", "C07.gaussian_kernel_cov_posdef", "C07.gaussian_kernel_reg_posdef"],
             "ExponentialKernel": ["C07.kernel_cov_symm", "C07.kernel_reg_posdef_partial"],
         }
         return table.get(name, ["C07.*"])
